@@ -38,6 +38,17 @@ Theorem C11_errors_visible :
 Proof. exact errors_visible. Qed.
 Print Assumptions C11_errors_visible.
 
+(* ... also when nested: an error chunk inside groups that are rendered for
+   this record / build profile and carry no maximum width (which may cut it)
+   appears in full in the output. *)
+Theorem C11_nested_errors_visible :
+  forall ok ts e m c,
+    error_reachable e m c = true ->
+    exists pre post,
+      enc_chunk ok ts e c = pre ++ chars (LIT "{ERROR: " ++ m ++ [125]) ++ post.
+Proof. exact nested_errors_visible. Qed.
+Print Assumptions C11_nested_errors_visible.
+
 (* The parser does not depend on its fuel (used below). *)
 Theorem C11_parser_fuel_irrelevant :
   forall al an d k s, (length s < d)%nat -> (length s < k)%nat ->
@@ -110,6 +121,11 @@ Example C11_ex_errors :
   = Ok [CText (LIT "x"); CError (LIT "unknown formatter `nope`"); CLeaf KMessage default_params;
         CError (LIT "unmatched '}'"); CText (LIT "y"); CError (LIT "expected '}'")].
 Proof. vm_compute; reflexivity. Qed.
+
+Example C11_ex_nested_error :
+  exists cs, construct a_alpha a_alnum w_ok (LIT "{h({({nope}):>30})}") = Ok cs /\
+             forallb (error_reachable w_env (LIT "unknown formatter `nope`")) cs = true.
+Proof. eexists; split; vm_compute; reflexivity. Qed.
 
 Example C11_ex_prefix :
   last_not_lookahead ex_prefix_seq (LIT "{nope") /\
